@@ -40,6 +40,10 @@ Fixpoint bs (l : list N) : string := match l with [] => EmptyString | n :: r => 
 def shape_programs():
     """(id, text): one program per shape of the dissector, for the oracle's verdict table."""
     P = []
+    # two packets that each declare a nested object of the same name with different layouts
+    P.append(("same-inline-name", "packet NewOrder {\n    repeat Leg {\n        char[8] Symbol,\n        u32 Qty,\n    },\n}\n"
+              "packet Cancel {\n    repeat Leg {\n        u64 OrderId,\n    },\n}\n"
+              "root packet Msg {\n    u8 MsgType,\n    match MsgType as Body {\n        1 : NewOrder,\n        2 : Cancel,\n    },\n}\n"))
     flat = """root packet Flat {
     u8 a,
     u16 b,
@@ -163,6 +167,10 @@ def observe(programs, hook):
             observed[pid] = {"skipped": {k: v for k, v in resp.items() if k not in ("model", "steps")}}
             continue
         ok, why = codec.modelled(resp["model"])
+        # two nested objects of one name are ordinary input for the dissector generator (each local
+        # function shadows the previous one): only unresolved references are outside the model
+        why = [w for w in why if not w.startswith("type name ")]
+        ok = not why
         if not ok:
             stats["outside_model"] += 1
             observed[pid] = {"skipped": {"outside_model": why}}
